@@ -284,6 +284,12 @@ func init() {
 							continue
 						}
 						out = append(out, mkInst("vhC05Flat", map[string]interface{}{"rank": r, "maxdim": md, "prog": p, "ones": ones}, "rank", "prog", "ones"))
+						if r <= 2 && (p == "F" || p == "R" || p == "nR" || p == "RF") {
+							// the same passes driven by NextValid / NextValidity of the unmasked iterator
+							for _, st := range []string{"valid", "validity"} {
+								out = append(out, mkInst("vhC05Flat", map[string]interface{}{"rank": r, "maxdim": md, "prog": p, "ones": ones, "step": st}, "rank", "prog", "ones", "step"))
+							}
+						}
 					}
 				}
 			}
